@@ -72,3 +72,8 @@ Definition render_ref (fmt : list refpart) (path : string) (s e : nat) : string 
 
 Definition render_dmsg (fmt : list dmsgpart) (lines occ : nat) (locs : list string) : string :=
   sconcat (map (fun p => match p with DLit t => t | DLines => show_nat lines | DOcc => show_nat occ | DLocs sep => join sep locs end) fmt).
+
+(* ---------- str primitives used by the text block filters (block_filter.py) ---------- *)
+(* `s.startswith(p)` / `s.endswith(p)` with the receiver first (the order the translator emits) *)
+Definition str_starts (s p : string) : bool := str_prefix p s.
+Definition str_ends (s p : string) : bool := str_prefix (srev p) (srev s).
